@@ -79,7 +79,7 @@ PROPS = {
             "not_covered": ["not covered: injectivity of the state-file name formatting (string reasoning); that dunce::canonicalize returns one name per directory (assumed contract of canonicalize_dir, whose text is fingerprinted)"]},
     "C19": {"units": ["CFG", "DOM", "CLN"], "level": "proof", "assume": CFGA + ["A-str"],
             "not_covered": ["not covered: list_all_available_target_names (iterator chains over string maps); str::split itself (assumed with its three defining facts: at least one piece, joining gives the text back, no piece contains the separator)"]},
-    "C20": {"units": ["ACT", "RELAY", "CFG"], "level": "proof", "assume": ACTORS,
+    "C20": {"units": ["ACT", "RELAY", "CFG", "CLN"], "level": "proof", "assume": ACTORS + ["A-clap", "A-fs"],
             "not_covered": ["not covered: the metamorphic comparison of two real invocations"]},
 }
 
